@@ -528,11 +528,21 @@ func genHAim(t *rapid.T, m ref.Tx, q ref.FeeQuote, st *HStep) (HStep, bool) {
 	if err != nil || len(m.In) == 0 {
 		return HStep{}, false
 	}
+	if !ref.FeeSumIn(m).IsUint64() || !ref.FeeSumOut(m).IsUint64() {
+		return HStep{}, false
+	}
 	f, dust := fWith.Uint64(), uint64(bt.DustLimit)
 	outSum := ref.FeeSumOut(m).Uint64()
-	st.Rel = rapid.SampledFrom([]string{"fee-1", "fee", "fee+1", "fee+dust", "fee+dust+1", "fee+dust+2", "ample", "ample", "ample", "ample", "huge", "insufficient"}).Draw(t, "rel")
+	st.Rel = rapid.SampledFrom([]string{"fee-1", "fee", "fee+1", "fee+dust", "fee+dust+1", "fee+dust+2", "ample", "ample", "ample", "ample", "huge", "insufficient", "surplus>=2^62"}).Draw(t, "rel")
 	var total uint64
 	switch st.Rel {
+	case "surplus>=2^62":
+		v, class := genHugeAmount(t, "surplus")
+		st.Rel = "surplus=" + class
+		if total = satAdd(satAdd(outSum, f), v); total == maxU64 {
+			st.Rel = "total=2^64-1-k"
+			total = maxU64 - rapid.Uint64Range(0, 1000000).Draw(t, "below_max")
+		}
 	case "insufficient":
 		if outSum == 0 {
 			st.Rel, total = "equal", 0
@@ -557,7 +567,7 @@ func genHAim(t *rapid.T, m ref.Tx, q ref.FeeQuote, st *HStep) (HStep, bool) {
 	case "ample":
 		total = outSum + f + rapid.Uint64Range(3, 100000).Draw(t, "extra")
 	default:
-		total = outSum + f + rapid.Uint64Range(100000, 2000000000000).Draw(t, "extra")
+		total = satAdd(outSum+f, rapid.Uint64Range(100000, 2000000000000).Draw(t, "extra"))
 	}
 	at := rapid.IntRange(0, len(m.In)-1).Draw(t, "aim_at")
 	others := ref.FeeSumIn(m).Uint64() - m.In[at].PrevSats
@@ -579,6 +589,10 @@ func genHEdit(t *rapid.T, m ref.Tx) HStep {
 		st.U64 = rapid.Uint64Range(0, 200000).Draw(t, "isats")
 	case "isats", "osats":
 		st.U64 = rapid.Uint64Range(0, 200000).Draw(t, "amount")
+		if rapid.IntRange(0, 11).Draw(t, "huge_amount") == 7 { // upper half of the uint64 range
+			v, _ := genHugeAmount(t, "huge_v")
+			st.U64 = min(v, maxU64-1<<44)
+		}
 	case "iunlock":
 		switch rapid.IntRange(0, 3).Draw(t, "uk") {
 		case 0:
